@@ -400,7 +400,11 @@ class PayloadVENDOR(Payload):
 
     def to_dict(self):
         result = super().to_dict()
-        result['vendor_id'] = self.vendor_id.decode(errors='replace')
+        try:
+            result['vendor_id'] = self.vendor_id.decode()
+        except UnicodeDecodeError:
+            # not text: show the octets
+            result['vendor_id'] = self.vendor_id.hex()
         return result
 
 
@@ -567,7 +571,11 @@ class PayloadID(Payload):
 
     def _id_data_str(self):
         if self.id_type in (PayloadID.Type.ID_RFC822_ADDR, PayloadID.Type.ID_FQDN):
-            return self.id_data.decode(errors='replace')
+            try:
+                return self.id_data.decode()
+            except UnicodeDecodeError:
+                # not text: show the octets
+                return self.id_data.hex()
         elif self.id_type in (PayloadID.Type.ID_IPV4_ADDR, PayloadID.Type.ID_IPV6_ADDR):
             try:
                 return str(ip_address(bytes(self.id_data))),
